@@ -476,7 +476,7 @@ def run(ctx, index, graph, effects, wm, reach):
                 ok, msg = True, ""
             ctx.ob("C20.prov", f, node, ok, msg)
     ctx.count("write_paths_traced", n)
-    ctx.floor("write paths traced", n, 8)
+    ctx.floor("write paths traced", n, 6)
     _absolute_components(ctx, index, prov, reach)
 
 
